@@ -1,6 +1,8 @@
 package c13
 
 import (
+	"math/rand"
+
 	"github.com/whatap/golib/util/list"
 
 	"verifharness/core"
@@ -15,6 +17,38 @@ type lsess struct {
 	dead   bool
 	full   bool // every event also carries the complete contents ("all")
 	sig    []string
+	// the arrays ToArray returned that the caller still holds (the very slices), see held.go
+	kr   *rand.Rand // nil: the caller keeps nothing
+	held [][]interface{}
+}
+
+func (s *lsess) heldAll() [][]int {
+	out := make([][]int, 0, len(s.held))
+	for _, a := range s.held {
+		out = append(out, s.vals(a))
+	}
+	return out
+}
+
+// heldSet: the caller writes into a retained array
+func (s *lsess) heldSet(v int) {
+	if s.kr == nil || len(s.held) == 0 {
+		return
+	}
+	h := 1 + s.kr.Intn(len(s.held))
+	a := s.held[h-1]
+	if len(a) == 0 {
+		return
+	}
+	i := s.kr.Intn(len(a))
+	a[i] = v
+	s.emit("HeldSet", core.Ev{"h": h, "i": i, "v": v})
+}
+
+func (s *lsess) heldEvAll() {
+	for h := 1; h <= len(s.held); h++ {
+		s.emit("Held", core.Ev{"h": h, "arr": s.vals(s.held[h-1])})
+	}
 }
 
 func lval(x interface{}) []int {
@@ -53,6 +87,15 @@ func (s *lsess) emit(name string, ev core.Ev) {
 	if s.full {
 		if a := s.proj(); a != nil {
 			ev["all"] = a
+		}
+	}
+	if s.kr != nil {
+		n := 0
+		for _, a := range s.held {
+			n += len(a)
+		}
+		if n <= 64 {
+			ev["held"] = s.heldAll()
 		}
 	}
 	s.t.Emit(ev)
@@ -134,7 +177,18 @@ func (s *lsess) do(op string, p, v int) {
 	case "ToArray":
 		var a []interface{}
 		if s.run(op, func() { a = s.l.ToArray() }) {
-			s.emit(op, core.Ev{"arr": s.vals(a)})
+			ev := core.Ev{"arr": s.vals(a)}
+			if s.kr != nil { // the very slice stays with the caller
+				h := len(s.held) + 1
+				if h > maxHeld {
+					h = 1 + s.kr.Intn(maxHeld)
+					s.held[h-1] = a
+				} else {
+					s.held = append(s.held, a)
+				}
+				ev["keep"] = h
+			}
+			s.emit(op, ev)
 		}
 	case "Size":
 		n := 0
@@ -179,6 +233,7 @@ func (s *lsess) proj() []int {
 func linkedHistory(c *core.Ctx, t *core.Trace, gen string, cas int, nops int) *lsess {
 	r := c.Rng(gen, cas)
 	s := lstart(t, gen, cas, core.Ev{"profile": "linked"})
+	s.kr = r
 	nv := 1 + r.Intn(9)
 	limit := []int{3, 8, 40, 200}[r.Intn(4)]
 	for i := 0; i < nops && !s.dead; i++ {
@@ -209,17 +264,23 @@ func linkedHistory(c *core.Ctx, t *core.Trace, gen string, cas int, nops int) *l
 			s.do("RemoveLast", 0, 0)
 		case x < 82:
 			s.do("Clear", 0, 0)
-		case x < 90:
+		case x < 88:
 			s.do("ToArray", 0, 0)
-		case x < 96:
+		case x < 92:
+			s.heldSet(v)
+		case x < 97:
 			s.do("Walk", 0, 0)
 		default:
 			s.do("Size", 0, 0)
+		}
+		if i%32 == 31 && !s.dead {
+			s.heldEvAll()
 		}
 	}
 	if !s.dead {
 		s.do("ToArray", 0, 0)
 		s.do("Walk", 0, 0)
+		s.heldEvAll()
 	}
 	return s
 }
